@@ -16,12 +16,16 @@ def compile_cmd(demo, wt, tree, exe):
     cmd = re.sub(re.escape(wt) + r'/seeded/demo\d\.cc', demo, cmd).replace(wt, tree)
     return cmd + ' -o ' + exe
 def main():
-    for i in ([int(a) for a in sys.argv[1:]] or range(1, 21)):
-        pid = 'C%02d' % i; wt = '/tmp/wt-' + pid; sd = os.path.join(wt, 'seeded')
-        for n in (1, 2):
+    import argparse
+    ap = argparse.ArgumentParser(); ap.add_argument('--src', default='/tmp/wt-'); ap.add_argument('--tag', default=''); ap.add_argument('--n', type=int, default=2); ap.add_argument('ids', nargs='*', type=int)
+    A = ap.parse_args()
+    for i in (A.ids or range(1, 21)):
+        pid = 'C%02d' % i; wt = A.src + pid; sd = os.path.join(wt, 'seeded')
+        if not os.path.isdir(sd): continue
+        for n in range(1, A.n + 1):
             patch = os.path.join(sd, 'patch%d.diff' % n); demo = os.path.join(sd, 'demo%d.cc' % n)
             if not (os.path.exists(patch) and os.path.exists(demo)): print(pid, n, 'missing'); continue
-            sid = '%s-%d' % (pid, n); dst = os.path.join(ROOT, 'seeded', sid); os.makedirs(dst, exist_ok=True)
+            sid = ('%s-%s%d' % (pid, A.tag, n)); dst = os.path.join(ROOT, 'seeded', sid); os.makedirs(dst, exist_ok=True)
             shutil.copy(patch, os.path.join(dst, 'patch.diff')); shutil.copy(demo, os.path.join(dst, 'demo.cc'))
             tmp = tempfile.mkdtemp(prefix='fm-ing-'); ran = []
             try:
